@@ -1,8 +1,319 @@
-import Rangers.Model.Decimal
-/-! C18 property theorems (being built; see design/C18.md). -/
+import Rangers.Proofs.DecimalFormat
+/-!
+# C18 — decimal amount strings and 18-decimal integers convert without loss
+
+Every theorem is about `Rangers.Model.Decimal`, the model the correspondence
+driver (`Rangers.Drive.C18`) executes against the Go code on every run.
+
+Reading of the property statement:
+* "formatting an integer amount and parsing it back returns the same integer"
+  → `format_parse_id`, `roundtrip_word` (all of −(2^256−1) … 2^256−1, in fact |n| < 2^510);
+* "parsing a decimal string with at most 18 fractional digits yields exactly the
+  integer it denotes" → `parse_exact`, `parse_exact_domain` (≤ 78 integer digits);
+* "re-scaling between 18 decimals and a token's unit is the identity at 18
+  decimals" → `erc20_18_id`, `rocket_18_id`; for token decimals 0 … 18:
+  `erc20_floor`, `rocket_scale`;
+* "a value carried in a wrapped Ethereum transaction reaches the EVM unchanged"
+  → `evm_value_unchanged`.
+The arithmetic these rest on: `roundAway_spec`, `roundAway_idempotent`,
+`strToBigInt_plain_general`. The bound `2^510` is what two away-from-zero roundings
+at 512 bits leave; `format_parse_id_unbounded_counterexample` shows it is not an artefact.
+-/
 namespace Rangers.Props.C18
 open Rangers.Decimal
 
-theorem strToBigInt_empty (d : Int) : strToBigInt [] d = .ok 0 := rfl
+/-! ## the rounding lemma everything rests on -/
+
+/-- One `AwayFromZero` rounding of the integer mantissa `m` to `p` bits never goes
+    below `m` and overshoots by a relative error strictly below `2^(1-p)`. -/
+theorem roundAway_spec (p m : Nat) (hp : 1 ≤ p) (hm : 0 < m) :
+    (m : ℚ) ≤ ((roundMant .away p m false).1 : ℚ) * 2 ^ (roundMant .away p m false).2 ∧
+    ((roundMant .away p m false).1 : ℚ) * 2 ^ (roundMant .away p m false).2
+      < (m : ℚ) * (1 + 1 / 2 ^ (p - 1)) :=
+  roundMant_away_spec p m false (m : ℚ) hp hm (le_refl _) (by linarith) (by simp) (by simp)
+
+example : roundMant .away 3 13 false = (7, 1) := by decide +kernel
+example : roundMant .away 3 12 false = (6, 1) := by decide +kernel
+
+/-- Rounding (in either mode) does not change a mantissa that already fits. -/
+theorem roundAway_idempotent (mode : Mode) (p m : Nat) (h : bitLen m ≤ p) :
+    roundMant mode p m false = (m, 0) :=
+  roundMant_fits mode false h
+
+example : bitLen 13 ≤ 4 := by decide +kernel
+
+/-- The rounded mantissa itself fits into `p` bits or is exactly `2^p` (carry). -/
+theorem roundAway_le_pow (mode : Mode) (p m : Nat) (st : Bool) (h : p < bitLen m) :
+    (roundMant mode p m st).1 ≤ 2 ^ p := by
+  unfold roundMant
+  have h' : ¬ bitLen m ≤ p := by omega
+  simp only [h', if_false]
+  have hlt : m / 2 ^ (bitLen m - p) < 2 ^ p := by
+    rw [Nat.div_lt_iff_lt_mul (Nat.two_pow_pos _), ← Nat.pow_add]
+    have : p + (bitLen m - p) = bitLen m := by omega
+    rw [this]
+    exact lt_two_pow_bitLen m
+  cases mode <;> dsimp only <;> split <;> omega
+
+example : 3 < bitLen 13 := by decide +kernel
+
+/-! ## parsing -/
+
+/-- **General exactness of `strToBigInt`.** For a plain decimal string
+    `[sign] ip [ "." fp ]` (`ip`, `fp` digit strings, not both empty, at most 27
+    fraction digits) with digit value `N`, and `d` decimals: if
+    `N·10^(d-|fp|) < 2^510` then `strToBigInt` returns exactly `± ⌊N·10^d / 10^|fp|⌋`
+    — no error, no binary rounding visible. -/
+theorem strToBigInt_plain_general (sg : Option Bool) (ip fp : Str) (dot : Bool) (d : Nat)
+    (hip : allDig ip) (hfp : allDig fp) (hdot : dot = false → fp = []) (hne : ip ++ fp ≠ [])
+    (hf : fp.length ≤ 27)
+    (hbound : Nat.ofDigitChars 10 (ip ++ fp) 0 * 10 ^ (d - fp.length) < 2 ^ 510) :
+    strToBigInt (signStr sg ++ plainBody ip fp dot) (d : Int) =
+      .ok (if signNeg sg then -((Nat.ofDigitChars 10 (ip ++ fp) 0 * 10 ^ d / 10 ^ fp.length : ℕ) : Int)
+           else ((Nat.ofDigitChars 10 (ip ++ fp) 0 * 10 ^ d / 10 ^ fp.length : ℕ) : Int)) :=
+  strToBigInt_plain sg ip fp dot d hip hfp hdot hne hf hbound
+
+example : allDig "12".toList ∧ allDig "50".toList ∧ ("12".toList ++ "50".toList ≠ []) ∧
+    Nat.ofDigitChars 10 ("12".toList ++ "50".toList) 0 * 10 ^ (18 - 2) < 2 ^ 510 := by decide +kernel
+example : strToBigInt (signStr (some true) ++ plainBody "12".toList "50".toList true) 18
+    = .ok (-12500000000000000000) := by decide +kernel
+
+/-- The digit value of `ip ++ fp` is `value(ip)·10^|fp| + value(fp)`: the string
+    `ip.fp` denotes `N / 10^|fp|`. -/
+theorem digits_value_split (ip fp : Str) :
+    Nat.ofDigitChars 10 (ip ++ fp) 0 =
+      Nat.ofDigitChars 10 ip 0 * 10 ^ fp.length + Nat.ofDigitChars 10 fp 0 := by
+  rw [Nat.ofDigitChars_append, Nat.ofDigitChars_eq_ofDigitChars_zero, Nat.mul_comm]
+
+/-- **parse_exact.** A decimal string with at most 18 fraction digits denoting
+    `± N / 10^f` parses (at 18 decimals) to exactly `± N·10^(18-f)`, provided that
+    integer is below `2^510`. -/
+theorem parse_exact (sg : Option Bool) (ip fp : Str) (dot : Bool)
+    (hip : allDig ip) (hfp : allDig fp) (hdot : dot = false → fp = []) (hne : ip ++ fp ≠ [])
+    (hf : fp.length ≤ 18)
+    (hbound : Nat.ofDigitChars 10 (ip ++ fp) 0 * 10 ^ (18 - fp.length) < 2 ^ 510) :
+    StrToBigInt (signStr sg ++ plainBody ip fp dot) =
+      .ok (if signNeg sg then -((Nat.ofDigitChars 10 (ip ++ fp) 0 * 10 ^ (18 - fp.length) : ℕ) : Int)
+           else ((Nat.ofDigitChars 10 (ip ++ fp) 0 * 10 ^ (18 - fp.length) : ℕ) : Int)) := by
+  have h := strToBigInt_plain sg ip fp dot 18 hip hfp hdot hne (by omega) hbound
+  have hdiv : Nat.ofDigitChars 10 (ip ++ fp) 0 * 10 ^ 18 / 10 ^ fp.length
+      = Nat.ofDigitChars 10 (ip ++ fp) 0 * 10 ^ (18 - fp.length) := by
+    have h18 : 18 = (18 - fp.length) + fp.length := by omega
+    conv_lhs => rw [h18, Nat.pow_add, ← Nat.mul_assoc]
+    exact Nat.mul_div_cancel _ (by positivity)
+  rw [hdiv] at h
+  exact h
+
+example : StrToBigInt (signStr none ++ plainBody "0".toList "000000000000000001".toList true) = .ok 1 := by
+  decide +kernel
+
+/-- **parse_exact on the stated domain**: at most 78 integer digits and at most 18
+    fraction digits need no numeric side condition (`10^96 < 2^510`). -/
+theorem parse_exact_domain (sg : Option Bool) (ip fp : Str) (dot : Bool)
+    (hip : allDig ip) (hfp : allDig fp) (hdot : dot = false → fp = []) (hne : ip ++ fp ≠ [])
+    (hi : ip.length ≤ 78) (hf : fp.length ≤ 18) :
+    StrToBigInt (signStr sg ++ plainBody ip fp dot) =
+      .ok (if signNeg sg then -((Nat.ofDigitChars 10 (ip ++ fp) 0 * 10 ^ (18 - fp.length) : ℕ) : Int)
+           else ((Nat.ofDigitChars 10 (ip ++ fp) 0 * 10 ^ (18 - fp.length) : ℕ) : Int)) := by
+  apply parse_exact sg ip fp dot hip hfp hdot hne hf
+  have h1 : Nat.ofDigitChars 10 (ip ++ fp) 0 < 10 ^ (ip ++ fp).length :=
+    ofDigitChars_lt _ (allDig_append.mpr ⟨hip, hfp⟩)
+  rw [List.length_append] at h1
+  have h2 : Nat.ofDigitChars 10 (ip ++ fp) 0 * 10 ^ (18 - fp.length)
+      < 10 ^ (ip.length + fp.length) * 10 ^ (18 - fp.length) :=
+    Nat.mul_lt_mul_of_pos_right h1 (by positivity)
+  rw [← Nat.pow_add] at h2
+  have h3 : 10 ^ (ip.length + fp.length + (18 - fp.length)) ≤ 10 ^ 96 :=
+    Nat.pow_le_pow_right (by norm_num) (by omega)
+  have h4 : (10 : ℕ) ^ 96 < 2 ^ 510 := by decide +kernel +kernel
+  omega
+
+example : allDig "115792089237316195423570985008687907853269984665640564039457584007913129639935".toList ∧
+    "115792089237316195423570985008687907853269984665640564039457584007913129639935".toList.length ≤ 78 := by
+  decide +kernel
+
+/-! ## format → parse -/
+
+/-- **format_parse_id.** `strToBigInt (bigIntToStr n 18) 18 = n` for every integer
+    with `|n| < 2^510` (both signs; covers every balance and every EVM word). -/
+theorem format_parse_id (n : Int) (h : n.natAbs < 2 ^ 510) :
+    strToBigInt (bigIntToStr n 18) 18 = .ok n := by
+  obtain ⟨first, last, hs, hd1, hd2, hlen, hne, hdot, hval⟩ := bigIntToStr_shape n 18
+  have hs' : bigIntToStr n 18 = signStr (if n < 0 then some true else none) ++ plainBody first last (18 != 0) := hs
+  rw [hs']
+  have := strToBigInt_plain (if n < 0 then some true else none) first last (18 != 0) 18 hd1 hd2 hdot
+    (by intro h; exact hne (List.append_eq_nil_iff.mp h).1) (by omega)
+    (by rw [hval, hlen]; simpa using h)
+  rw [hval, hlen, Nat.mul_div_cancel _ (by positivity)] at this
+  rw [signed_natAbs] at this
+  exact this
+
+example : strToBigInt (bigIntToStr (-5) 18) 18 = .ok (-5) := by decide +kernel
+
+/-- The exported pair `BigIntToStr` / `StrToBigInt` (zero is printed as "0"). -/
+theorem format_parse_id_exported (n : Int) (h : n.natAbs < 2 ^ 510) :
+    StrToBigInt (BigIntToStr n) = .ok n := by
+  unfold BigIntToStr StrToBigInt
+  by_cases h0 : n = 0
+  · subst h0; decide +kernel
+  · rw [if_neg h0]; exact format_parse_id n h
+
+/-- **Round trip on the stated range**: every integer from `-(2^256-1)` to `2^256-1`. -/
+theorem roundtrip_word (n : Int) (h1 : -(2 ^ 256 : Int) < n) (h2 : n < 2 ^ 256) :
+    StrToBigInt (BigIntToStr n) = .ok n := by
+  apply format_parse_id_exported
+  have h3 : (2 : ℕ) ^ 256 < 2 ^ 510 := Nat.pow_lt_pow_right (by norm_num) (by norm_num)
+  have h4 : n.natAbs < 2 ^ 256 := by
+    have : ((2 ^ 256 : ℕ) : Int) = (2 : Int) ^ 256 := by push_cast
+    omega
+  omega
+
+example : StrToBigInt (BigIntToStr (2 ^ 256 - 1)) = .ok (2 ^ 256 - 1) := by decide +kernel
+
+/-! ## re-scaling between the ledger unit and a token unit -/
+
+/-- general form: ledger (18 decimals) → token with `d` decimals. -/
+theorem erc20_general (n : Int) (d : Nat) (h : n.natAbs * 10 ^ (d - 18) < 2 ^ 510) :
+    formatERC20 n d =
+      .ok (if n < 0 then -((n.natAbs * 10 ^ d / 10 ^ 18 : ℕ) : Int) else ((n.natAbs * 10 ^ d / 10 ^ 18 : ℕ) : Int)) := by
+  unfold formatERC20
+  by_cases h0 : n = 0
+  · subst h0; simp
+  · rw [if_neg h0]
+    unfold BigIntToStr
+    rw [if_neg h0]
+    obtain ⟨first, last, hs, hd1, hd2, hlen, hne, hdot, hval⟩ := bigIntToStr_shape n 18
+    have hs' : bigIntToStr n 18 = signStr (if n < 0 then some true else none) ++ plainBody first last (18 != 0) := hs
+    rw [hs']
+    have := strToBigInt_plain (if n < 0 then some true else none) first last (18 != 0) d hd1 hd2 hdot
+      (by intro h; exact hne (List.append_eq_nil_iff.mp h).1) (by omega)
+      (by rw [hval, hlen]; exact h)
+    rw [hval, hlen] at this
+    rw [this]
+    by_cases hn : n < 0 <;> simp [hn, signNeg]
+
+/-- general form: token with `d ≤ 27` decimals → ledger (18 decimals). -/
+theorem rocket_general (n : Int) (d : Nat) (hd : d ≤ 27) (h : n.natAbs * 10 ^ (18 - d) < 2 ^ 510) :
+    formatRocket n d =
+      .ok (if n < 0 then -((n.natAbs * 10 ^ 18 / 10 ^ d : ℕ) : Int) else ((n.natAbs * 10 ^ 18 / 10 ^ d : ℕ) : Int)) := by
+  unfold formatRocket
+  by_cases h0 : n = 0
+  · subst h0; simp
+  · rw [if_neg h0]
+    unfold StrToBigInt
+    obtain ⟨first, last, hs, hd1, hd2, hlen, hne, hdot, hval⟩ := bigIntToStr_shape n d
+    rw [hs]
+    have := strToBigInt_plain (if n < 0 then some true else none) first last (d != 0) 18 hd1 hd2 hdot
+      (by intro h; exact hne (List.append_eq_nil_iff.mp h).1) (by omega)
+      (by rw [hval, hlen]; exact h)
+    rw [hval, hlen] at this
+    rw [show (18 : Int) = ((18 : ℕ) : Int) from rfl, this]
+    by_cases hn : n < 0 <;> simp [hn, signNeg]
+
+/-- **erc20_18_id.** Ledger → 18-decimal token is the identity. -/
+theorem erc20_18_id (n : Int) (h : n.natAbs < 2 ^ 510) : formatERC20 n 18 = .ok n := by
+  have := erc20_general n 18 (by simpa using h)
+  rw [Nat.mul_div_cancel _ (by positivity)] at this
+  rw [show (18 : Int) = ((18 : ℕ) : Int) from rfl, this, signed_natAbs']
+
+/-- **rocket_18_id.** 18-decimal token → ledger is the identity. -/
+theorem rocket_18_id (n : Int) (h : n.natAbs < 2 ^ 510) : formatRocket n 18 = .ok n := by
+  have := rocket_general n 18 (by norm_num) (by simpa using h)
+  rw [Nat.mul_div_cancel _ (by positivity)] at this
+  rw [show (18 : Int) = ((18 : ℕ) : Int) from rfl, this, signed_natAbs']
+
+example : formatERC20 (-(2 ^ 256 - 1)) 18 = .ok (-(2 ^ 256 - 1)) ∧ formatRocket (2 ^ 256 - 1) 18 = .ok (2 ^ 256 - 1) := by
+  decide +kernel
+
+/-- **erc20_floor.** For token decimals `0 ≤ d ≤ 18` the ledger → token conversion is
+    division by `10^(18-d)` truncated toward zero (Go's `Quo`, Lean's `Int.tdiv`). -/
+theorem erc20_floor (n : Int) (d : Nat) (hd : d ≤ 18) (h : n.natAbs < 2 ^ 510) :
+    formatERC20 n d = .ok (n.tdiv (10 ^ (18 - d))) := by
+  have h' : n.natAbs * 10 ^ (d - 18) < 2 ^ 510 := by
+    have : d - 18 = 0 := by omega
+    rw [this]; simpa using h
+  rw [erc20_general n d h']
+  have hdiv : n.natAbs * 10 ^ d / 10 ^ 18 = n.natAbs / 10 ^ (18 - d) := by
+    have h18 : 18 = (18 - d) + d := by omega
+    conv_lhs => rw [h18, Nat.pow_add]
+    rw [Nat.mul_div_mul_right _ _ (by positivity)]
+  rw [hdiv]
+  congr 1
+  have hk : ((10 : Int) ^ (18 - d)) = ((10 ^ (18 - d) : ℕ) : Int) := by push_cast; rfl
+  rw [hk]
+  by_cases hn : n < 0
+  · have hneg : n = -((n.natAbs : ℕ) : Int) := by omega
+    rw [if_pos hn]
+    conv_rhs => rw [hneg, Int.neg_tdiv, ← Int.ofNat_tdiv]
+  · have hpos : n = ((n.natAbs : ℕ) : Int) := by omega
+    rw [if_neg hn]
+    conv_rhs => rw [hpos, ← Int.ofNat_tdiv]
+
+example : formatERC20 1234567890123456789012 6 = .ok 1234567890 := by decide +kernel
+
+/-- **rocket_scale.** For token decimals `0 ≤ d ≤ 18` the token → ledger conversion
+    multiplies by `10^(18-d)` exactly. -/
+theorem rocket_scale (n : Int) (d : Nat) (hd : d ≤ 18) (h : n.natAbs * 10 ^ (18 - d) < 2 ^ 510) :
+    formatRocket n d = .ok (n * 10 ^ (18 - d)) := by
+  rw [rocket_general n d (by omega) h]
+  have hdiv : n.natAbs * 10 ^ 18 / 10 ^ d = n.natAbs * 10 ^ (18 - d) := by
+    have h18 : 18 = (18 - d) + d := by omega
+    conv_lhs => rw [h18, Nat.pow_add, ← Nat.mul_assoc]
+    exact Nat.mul_div_cancel _ (by positivity)
+  rw [hdiv]
+  congr 1
+  by_cases hn : n < 0
+  · have hneg : n = -((n.natAbs : ℕ) : Int) := by omega
+    rw [if_pos hn]
+    conv_rhs => rw [hneg]
+    push_cast; ring
+  · have hpos : n = ((n.natAbs : ℕ) : Int) := by omega
+    rw [if_neg hn]
+    conv_rhs => rw [hpos]
+    push_cast; ring
+
+example : formatRocket 1234567 6 = .ok 1234567000000000000 := by decide +kernel
+
+/-- Token → ledger → token returns the token amount for every `d ≤ 18`. -/
+theorem rocket_then_erc20 (m : Int) (d : Nat) (hd : d ≤ 18) (h : m.natAbs * 10 ^ (18 - d) < 2 ^ 510) :
+    formatRocket m d = .ok (m * 10 ^ (18 - d)) ∧ formatERC20 (m * 10 ^ (18 - d)) d = .ok m := by
+  refine ⟨rocket_scale m d hd h, ?_⟩
+  have habs : (m * 10 ^ (18 - d)).natAbs = m.natAbs * 10 ^ (18 - d) := by
+    rw [Int.natAbs_mul, Int.natAbs_pow]; rfl
+  rw [erc20_floor _ d hd (by rw [habs]; exact h)]
+  congr 1
+  exact Int.mul_tdiv_cancel _ (by positivity)
+
+example : (1234567 : Int).natAbs * 10 ^ (18 - 6) < 2 ^ 510 := by decide +kernel
+
+/-! ## the wrapped Ethereum transaction value path -/
+
+/-- **evm_value_unchanged.** `ConvertTx` (→ `BigIntToStr`) followed by
+    `decodeContractData` (→ `StrToBigInt`) is the identity on `[0, 2^256)`. -/
+theorem evm_value_unchanged (v : Int) (h0 : 0 ≤ v) (h1 : v < 2 ^ 256) : evmValue v = .ok v := by
+  unfold evmValue
+  exact roundtrip_word v (by have : (0 : Int) < 2 ^ 256 := by positivity
+                             omega) h1
+
+example : evmValue 115792089237316195423570985008687907853269984665640564039457584007913129639935
+    = .ok 115792089237316195423570985008687907853269984665640564039457584007913129639935 := by decide +kernel
+
+/-! ## the bound is real -/
+
+/-- The round trip without a size bound (what one would like to write). -/
+def FullStatementFormatParseUnbounded : Prop :=
+  ∀ n : Int, strToBigInt (bigIntToStr n 18) 18 = .ok n
+
+/-- `format_parse_id` is the proved restriction (`|n| < 2^510`, far beyond every
+    balance and EVM word) of `FullStatementFormatParseUnbounded`. -/
+theorem format_parse_id_partial (n : Int) (h : n.natAbs < 2 ^ 510) :
+    strToBigInt (bigIntToStr n 18) 18 = .ok n := format_parse_id n h
+
+/-- Beyond 512 significant bits the float rounds: `2^513 + 1` does not survive. -/
+theorem format_parse_id_unbounded_counterexample : ¬ FullStatementFormatParseUnbounded := by
+  intro h
+  have := h (2 ^ 513 + 1)
+  revert this
+  decide +kernel
 
 end Rangers.Props.C18
